@@ -434,9 +434,12 @@ pub(super) fn build_item_model(
     let node = property_code.node();
     match property_code.kind() {
         PropertyCodeKind::Expr(_, code) => {
-            let res = property_code.evaluate()?; // no warning; to be processed by cxx pass
+            let res = property_code.evaluate();
+            // type error should be reported no matter if the value can be evaluated statically,
+            // since cxx pass wouldn't run in preview mode
             let ty = TypeKind::List(Box::new(TypeKind::STRING));
             verify_code_return_type(node, code, &ty, diagnostics)?;
+            let res = res?; // no warning; to be processed by cxx pass
             let items = res
                 .unwrap_string_list()
                 .into_iter()
